@@ -260,9 +260,10 @@ def _logsched_jobs(q, t):
         {"name": "sched-random", "sched": True, "pkg": "./vsched/logcheck", "tags": "", "run": "^TestRapidSchedules$", "rapid": T(q, t), "shards": T(2, 8), "timeout": T(900, 7200)},
     ]
 PROPS["C06"]["jobs"] += _logsched_jobs(3000, 60000)
+PROPS["C05"]["jobs"] += _logsched_jobs(2000, 40000)  # goroutines logging through different nodes of one tree, under generated schedules
 PROPS["C13"]["jobs"] += _logsched_jobs(3000, 60000)
 PROPS["C15"]["jobs"] += _logsched_jobs(3000, 60000)
-for _p in ("C06", "C13", "C15"):
+for _p in ("C05", "C06", "C13", "C15"):
     PROPS[_p]["assumptions"] = PROPS[_p]["assumptions"] + ["scheduler tier: the root package is rewritten onto the cooperative scheduler (sync.Pool as a LIFO stack, mutexes and atomics as scheduling points); see C10 assumptions"]
 
 PROPS["C11"]["jobs"] = PROPS["C11"]["jobs"] + [{"name": "fatal-path", "pkg": "./c11", "run": "^TestFatalDrains$", "timeout": T(600, 600)}]
